@@ -11,6 +11,7 @@ Statically decided clauses:
 Not decided: prefix-freeness, Kraft equality, optimality (statements about code lengths / bit patterns).
 """
 from vlib import sym, rules, effects, dageq
+from vlib.facts import callee
 import props.C09 as c09
 
 ENC = 'symbol::huffman::EncoderHuffmanTree'
@@ -84,6 +85,48 @@ def builder_signature(F, b):
     return sig
 
 
+def check_emit_callbacks(ctx, F):
+    """Code words have no length bound (a Huffman tree over n symbols can be n-1 deep), so a callback that receives the
+    bits of a code word must forward them or store them in a growable bit container.  A callback that shifts them into a
+    fixed-width integer (`acc = acc << 1 | bit`) silently loses the bits of code words longer than that integer."""
+    n = 0
+    for b in F.bodies:
+        if b.promoted is not None or '::tests::' in b.defpath or b.dk not in ('Fn', 'AssocFn') or 'symbol' not in b.defpath:
+            continue
+        for blk, t in b.calls():
+            c = callee(t) or {}
+            if (c.get('name') or '') not in ('encode_symbol_prefix', 'encode_symbol_suffix'):
+                continue
+            # the emit argument: a closure defined in this body
+            for cb in F.closures_of(b):
+                _, cp = rules.evaluate(cb)
+                writes = []
+                calls = []
+                for r in cp or []:
+                    for e in r.events:
+                        if e['kind'] in ('write', 'write_ref'):
+                            writes.append(e)
+                        if e['kind'] == 'call' and e.get('uid') is not None:
+                            calls.append(e)
+                if cb.arg_count != 2 or F.ty_s(cb.local_ty(2)) != 'bool':
+                    continue
+                n += 1
+                ctx.touch(cb)
+                key = 'R2/emit-callback/' + cb.defpath
+                role = 'a callback that receives code-word bits forwards them or stores them in a growable container'
+                shifty = [e for e in writes if sym.contains(e['value'], lambda x: isinstance(x, tuple) and x and x[0] == 'bin' and x[1].split('.')[0] == 'Shl' and sym.contains(x[2], lambda y: isinstance(y, tuple) and y and y[0] == 'in'))]
+                if shifty:
+                    ctx.bad('R2', role, cb.defpath, 'the callback shifts the bits into a fixed-width integer (%s): code words longer than that integer (a Huffman tree over n symbols can be n-1 deep) lose their first bits, so the prefix form is no longer the reversed suffix form' % sym.show(shifty[0]['value'])[:80],
+                            key=key, loc=rules.loc(cb))
+                elif calls:
+                    ctx.ok('R2', role, cb.defpath, 'forwards each bit to %s' % calls[0]['callee'].rsplit('::', 1)[-1], key=key)
+                else:
+                    ctx.unresolved('R2', role, cb.defpath, 'callback neither forwards nor stores the bit in a recognised way', key=key)
+            break
+    if n < 2:
+        ctx.unresolved('R2', 'a callback that receives code-word bits forwards them or stores them in a growable container', 'symbol', 'only %d emit callbacks found' % n, key='R2/emit-callback/floor')
+
+
 def check_wrapper_siblings(ctx, F):
     """The convenience constructors of the two trees (from_probabilities, from_float_probabilities) feed the shared merge
     protocol: encoder and decoder must prepare the weights identically (same conversion, same NaN handling, same
@@ -111,6 +154,7 @@ def check_wrapper_siblings(ctx, F):
 def run(ctx):
     F = ctx.F
     check_wrapper_siblings(ctx, F)
+    check_emit_callbacks(ctx, F)
     eb = [b for b in F.bodies if b.promoted is None and b.name == BUILDER and b.self_adt == ENC]
     db = [b for b in F.bodies if b.promoted is None and b.name == BUILDER and b.self_adt == DEC]
     key = 'R4/same-merge-protocol/huffman'
